@@ -97,7 +97,22 @@ pub fn run(base: Instant, c: &Case, dump: bool) -> Out {
                 acted = true;
                 let e0 = p.w.emitted;
                 if let Some((rel, alt)) = c.dev {
-                    p.w.fates.insert(e0 + rel, ALTS[alt as usize]);
+                    if rel >= 1000 {
+                        // reordering across the migration: the newest datagrams the client sent from its
+                        // old address are still in flight and arrive 40 ms late, after the first ones
+                        // from the new address
+                        let (from, to) = (p.w.nodes[CLIENT].addr, p.w.nodes[SERVER].addr);
+                        let mut seqs: Vec<u64> = p.w.net.iter().filter(|f| f.src == from && f.dst == to).map(|f| f.seq).collect();
+                        seqs.sort();
+                        let late: Vec<u64> = seqs.into_iter().rev().take((rel - 1000) as usize).collect();
+                        for f in p.w.net.iter_mut() {
+                            if late.contains(&f.seq) {
+                                f.at += Duration::from_millis(40);
+                            }
+                        }
+                    } else {
+                        p.w.fates.insert(e0 + rel, ALTS[alt as usize]);
+                    }
                 }
                 let spto = p.server().map(|s| s.conn.verif_probe().spaces[2].pto).unwrap_or_default();
                 match &c.kind {
@@ -288,7 +303,7 @@ pub fn run(base: Instant, c: &Case, dump: bool) -> Out {
                     if final_remote != Some(target) {
                         viol.push(("did-not-follow-client".into(), format!("new path {target} was validated at {tv:?} but the server's remote_address() is {final_remote:?}")));
                     }
-                } else if acted && workload_done(&p) && final_remote != Some(target) && c.dev.is_none()
+                } else if acted && workload_done(&p) && final_remote != Some(target) && c.dev.map_or(true, |d| d.0 >= 1000)
                     // (the premise "the client keeps sending from there": without the ping of the other
                     // workloads a download that was all but complete may leave the client silent)
                     && p.w.recs.iter().any(|r| matches!(r, Rec::Deliver { node, src, routed: Routed::Conn(_), .. } if *node == SERVER && *src == target))
@@ -413,7 +428,7 @@ pub fn main(args: &Args) -> ! {
     let mut rep = Report::new("C15", args, "fault_enumeration");
     let thorough = args.tier == Tier::Thorough;
     let dl = deadline(if thorough { 1500 } else { 50 });
-    rep.rule = "E3/E2 on real endpoints with data flowing both ways (W2), in bulk upstream (W6) or downstream (W15: the migrating client only acknowledges) and CID rotation on: at EVERY step index after the handshake the client's source address changes (port only on IPv4, port only on IPv6, full address change, full address change to a path with 60 / 250 ms more one-way delay), a second migration follows after several gaps (also before the first is validated), an attacker delivers a copy of a genuine client datagram from a third address ahead of the original (client continuing / client silent afterwards), the server has migration disabled, or server datagrams reach the client from a foreign address; each combined with every single drop/dup/delay of one of the next 8 datagrams (those carrying PATH_CHALLENGE / PATH_RESPONSE). Oracles: once a PATH_RESPONSE echoing a challenge sent to the new address was delivered the server reports and uses only the new address and the workload completes; before that the 3x byte ledger bounds what goes there and challenge/response datagrams are >= 1200 bytes; a spoofed path is abandoned within 3 PTO, a genuine slower path that keeps answering is not abandoned; with migration not permitted nothing is sent to, and no data accepted from, the other address. Non-trivial = distinct trace hashes of runs in which the address event happened.".into();
+    rep.rule = "E3/E2 on real endpoints with data flowing both ways (W2), in bulk upstream (W6) or downstream (W15: the migrating client only acknowledges) and CID rotation on: at EVERY step index after the handshake the client's source address changes (port only on IPv4, port only on IPv6, full address change, full address change to a path with 60 / 250 ms more one-way delay), a second migration follows after several gaps (also before the first is validated), an attacker delivers a copy of a genuine client datagram from a third address ahead of the original (client continuing / client silent afterwards), the server has migration disabled, or server datagrams reach the client from a foreign address; each combined with every single drop/dup/delay of one of the next 8 datagrams (those carrying PATH_CHALLENGE / PATH_RESPONSE), and with the newest one / two datagrams the client had sent from its old address arriving 40 ms late, behind the first ones from the new address. Oracles: once a PATH_RESPONSE echoing a challenge sent to the new address was delivered the server reports and uses only the new address and the workload completes; before that the 3x byte ledger bounds what goes there and challenge/response datagrams are >= 1200 bytes; a spoofed path is abandoned within 3 PTO, a genuine slower path that keeps answering is not abandoned; with migration not permitted nothing is sent to, and no data accepted from, the other address. Non-trivial = distinct trace hashes of runs in which the address event happened.".into();
     let mut cases = vec![];
     // step counts of the baselines
     let mut steps_of = BTreeMap::new();
@@ -432,6 +447,11 @@ pub fn main(args: &Args) -> ! {
             for k in kinds {
 
                 cases.push(Case { v4, wl, kind: k.clone(), at, dev: None });
+                if !v4 && matches!(k, Kind::Rebind { .. }) {
+                    for late in [1u64, 2] {
+                        cases.push(Case { v4, wl, kind: k.clone(), at, dev: Some((1000 + late, 0)) });
+                    }
+                }
                 let devs = matches!(k, Kind::Rebind { .. } | Kind::Attacker { .. } | Kind::RebindSlow { extra_ms: 250 });
                 if devs && (thorough || (!v4 && at % 3 == 0)) {
                     for rel in 0..8 {
@@ -452,7 +472,12 @@ pub fn main(args: &Args) -> ! {
                 if v4 && !thorough && !matches!(k, Kind::Rebind { full_ip: false }) {
                     continue;
                 }
-                cases.push(Case { v4, wl: Wl::W15, kind: k, at, dev: None });
+                cases.push(Case { v4, wl: Wl::W15, kind: k.clone(), at, dev: None });
+                if !v4 && matches!(k, Kind::Rebind { .. }) {
+                    for late in [1u64, 2] {
+                        cases.push(Case { v4, wl: Wl::W15, kind: k.clone(), at, dev: Some((1000 + late, 0)) });
+                    }
+                }
             }
         }
     }
